@@ -25,6 +25,9 @@ pub struct TomlOpts {
     /// git dependencies: (name, url, version requirement)
     #[serde(default)]
     pub git_deps: Vec<(String, String, String)>,
+    /// `[test] defines`
+    #[serde(default)]
+    pub test_defines: Vec<String>,
 }
 
 impl Default for TomlOpts {
@@ -38,6 +41,7 @@ impl Default for TomlOpts {
             extra_build: vec![],
             deps: vec![],
             git_deps: vec![],
+            test_defines: vec![],
         }
     }
 }
@@ -61,6 +65,9 @@ impl TomlOpts {
         for l in &self.extra_build {
             s.push_str(l);
             s.push('\n');
+        }
+        if !self.test_defines.is_empty() {
+            s.push_str(&format!("\n[test]\ndefines = [{}]\n", self.test_defines.iter().map(|d| format!("\"{d}\"")).collect::<Vec<_>>().join(", ")));
         }
         if !self.deps.is_empty() || !self.git_deps.is_empty() {
             s.push_str("\n[dependencies]\n");
@@ -248,7 +255,14 @@ pub fn gen_history(rng: &mut Rng, g: &Generated, len: usize, cmds: &[&[&str]]) -
             },
             53..=57 => {
                 let mut t = toml.clone();
-                match rng.below(4) {
+                match rng.below(5) {
+                    4 => {
+                        if t.test_defines.is_empty() {
+                            t.test_defines.push("DEF_A".into());
+                        } else {
+                            t.test_defines.clear();
+                        }
+                    }
                     0 => t.sourcemap = rng.pick(&["target", "none", "directory"]).to_string(),
                     1 => t.filelist = rng.pick(&["absolute", "relative", "flgen"]).to_string(),
                     2 => t.target = rng.pick(&["directory", "source", "bundle"]).to_string(),
